@@ -414,4 +414,89 @@ THEOREM InterFinal == InterInv /\ ~(i <= Len(a)) => Ascending(out) /\ Set(out) =
 <1>2. Read(a, i) = Set(a)
   BY <1>1, LenNat DEF Read, Set
 <1> QED BY <1>2 DEF InterInv
+
+(***************************************************************************)
+(* insert: `binary_search` reports either the position of the id (nothing   *)
+(* changes, the reply is "not new") or the slot k with everything before   *)
+(* it smaller and everything from it on larger (model-checked:             *)
+(* HpoGroupAlgo!SearchSound); `Vec::insert(k, x)` shifts the tail by one.   *)
+(***************************************************************************)
+InsertAt(s, k, x) == [m \in 1..(Len(s) + 1) |-> IF m < k THEN s[m] ELSE IF m = k THEN x ELSE s[m - 1]]
+
+THEOREM InsertKeepsOrder ==
+  ASSUME NEW s \in Seq(Nat), Ascending(s), NEW x \in Nat, NEW k \in 1..(Len(s) + 1),
+         \A m \in 1..(k - 1) : s[m] < x,
+         \A m \in k..Len(s) : x < s[m]
+  PROVE  /\ InsertAt(s, k, x) \in Seq(Nat)
+         /\ Len(InsertAt(s, k, x)) = Len(s) + 1
+         /\ Ascending(InsertAt(s, k, x))
+         /\ Set(InsertAt(s, k, x)) = Set(s) \cup {x}
+<1> DEFINE t == InsertAt(s, k, x)
+<1>0. Len(s) \in Nat
+  OBVIOUS
+<1>1. t \in Seq(Nat) /\ Len(t) = Len(s) + 1
+  <2>1. \A m \in 1..(Len(s) + 1) : (IF m < k THEN s[m] ELSE IF m = k THEN x ELSE s[m - 1]) \in Nat
+    OBVIOUS
+  <2>2. t \in [1..(Len(s) + 1) -> Nat]
+    BY <2>1 DEF InsertAt
+  <2> QED BY <1>0, <2>2 DEF InsertAt
+<1>2. \A m \in 1..(Len(s) + 1) : t[m] = (IF m < k THEN s[m] ELSE IF m = k THEN x ELSE s[m - 1])
+  BY DEF InsertAt
+<1>3. Ascending(t)
+  <2> SUFFICES ASSUME NEW p \in 1..Len(t), NEW q \in 1..Len(t), p < q PROVE t[p] < t[q]
+    BY DEF Ascending
+  <2>1. p \in 1..(Len(s) + 1) /\ q \in 1..(Len(s) + 1)
+    BY <1>1
+  <2>2. CASE q < k
+    BY <1>2, <2>1, <2>2 DEF Ascending
+  <2>3. CASE q = k
+    BY <1>2, <2>1, <2>3
+  <2>4. CASE q > k /\ p < k
+    <3>1. t[p] = s[p] /\ t[q] = s[q - 1] /\ s[p] < x /\ x < s[q - 1]
+      BY <1>2, <2>1, <2>4
+    <3>2. s[p] \in Nat /\ s[q - 1] \in Nat
+      BY <2>1, <2>4
+    <3> QED BY <3>1, <3>2
+  <2>5. CASE q > k /\ p = k
+    BY <1>2, <2>1, <2>5
+  <2>6. CASE q > k /\ p > k
+    <3>1. t[p] = s[p - 1] /\ t[q] = s[q - 1] /\ (p - 1) \in 1..Len(s) /\ (q - 1) \in 1..Len(s) /\ p - 1 < q - 1
+      BY <1>2, <2>1, <2>6
+    <3> QED BY <3>1 DEF Ascending
+  <2> QED BY <2>1, <2>2, <2>3, <2>4, <2>5, <2>6
+<1>4. Set(t) = Set(s) \cup {x}
+  <2>1. ASSUME NEW y \in Set(t) PROVE y \in Set(s) \cup {x}
+    <3>1. PICK m \in 1..Len(t) : y = t[m]
+      BY DEF Set
+    <3>2. m \in 1..(Len(s) + 1)
+      BY <1>1
+    <3>3. CASE m < k
+      BY <1>2, <3>1, <3>2, <3>3 DEF Set
+    <3>4. CASE m = k
+      BY <1>2, <3>1, <3>2, <3>4
+    <3>5. CASE m > k
+      <4>1. y = s[m - 1] /\ (m - 1) \in 1..Len(s)
+        BY <1>2, <3>1, <3>2, <3>5
+      <4> QED BY <4>1 DEF Set
+    <3> QED BY <3>2, <3>3, <3>4, <3>5
+  <2>2. ASSUME NEW y \in Set(s) \cup {x} PROVE y \in Set(t)
+    <3>1. CASE y = x
+      <4>1. k \in 1..Len(t) /\ t[k] = x
+        BY <1>1, <1>2
+      <4> QED BY <3>1, <4>1 DEF Set
+    <3>2. CASE y \in Set(s)
+      <4>1. PICK m \in 1..Len(s) : y = s[m]
+        BY <3>2 DEF Set
+      <4>2. CASE m < k
+        <5>1. m \in 1..Len(t) /\ t[m] = y
+          BY <1>1, <1>2, <4>1, <4>2
+        <5> QED BY <5>1 DEF Set
+      <4>3. CASE m >= k
+        <5>1. (m + 1) \in 1..Len(t) /\ t[m + 1] = y
+          BY <1>1, <1>2, <4>1, <4>3
+        <5> QED BY <5>1 DEF Set
+      <4> QED BY <4>1, <4>2, <4>3
+    <3> QED BY <3>1, <3>2
+  <2> QED BY <2>1, <2>2
+<1> QED BY <1>1, <1>3, <1>4
 =============================================================================
